@@ -30,6 +30,9 @@ pub struct Scenario {
     pub via_uci: bool,
     /// earlier searches in the same engine (fills TT/killers/history), each (depth)
     pub warmup_depths: Vec<u8>,
+    /// the warm-up searches are clock-limited too (with a budget they never reach), so that
+    /// whatever the timer keeps between searches is exercised
+    pub warmup_timed: bool,
 }
 
 impl Scenario {
@@ -37,7 +40,7 @@ impl Scenario {
         json!({"fen": self.fen, "depth": self.depth, "key_seed": self.key_seed, "forced": self.forced,
             "cost_node_ns": self.cost_node_ns, "cost_read_ns": self.cost_read_ns, "limit_ms": self.limit_ms,
             "stalls": self.stalls.iter().map(|(a, b)| json!([a, b])).collect::<Vec<_>>(),
-            "via_uci": self.via_uci, "warmup_depths": self.warmup_depths})
+            "via_uci": self.via_uci, "warmup_depths": self.warmup_depths, "warmup_timed": self.warmup_timed})
     }
     pub fn from_json(v: &Value) -> Option<Scenario> {
         Some(Scenario {
@@ -57,6 +60,7 @@ impl Scenario {
                 .as_array()
                 .map(|a| a.iter().filter_map(|x| x.as_u64().map(|d| d as u8)).collect())
                 .unwrap_or_default(),
+            warmup_timed: v["warmup_timed"].as_bool().unwrap_or(false),
         })
     }
 }
@@ -99,7 +103,11 @@ pub fn run_scenario(bench: &mut Bench, sc: &Scenario) -> ScenarioOutcome {
         if !sc.warmup_depths.is_empty() {
             st.push_line(&format!("position fen {}", sc.fen));
             for d in &sc.warmup_depths {
-                st.push_line(&format!("go depth {}", d));
+                if sc.warmup_timed {
+                    st.push_line(&format!("go depth {} movetime {}", d, HUGE_LIMIT.as_millis()));
+                } else {
+                    st.push_line(&format!("go depth {}", d));
+                }
             }
         }
         st.push_line(&format!("position fen {}", sc.fen));
@@ -139,7 +147,7 @@ pub fn run_scenario(bench: &mut Bench, sc: &Scenario) -> ScenarioOutcome {
         sess.fresh(&mut bench.searcher, false);
         let mut o = Outcome::Returned;
         for d in &sc.warmup_depths {
-            let r = sess.search(&mut bench.searcher, &board, *d, None);
+            let r = sess.search(&mut bench.searcher, &board, *d, if sc.warmup_timed { Some(HUGE_LIMIT) } else { None });
             if r.outcome != Outcome::Returned {
                 o = r.outcome;
                 break;
@@ -287,6 +295,18 @@ pub fn shrink_value(v: &Value) -> Vec<Value> {
         n.warmup_depths.clear();
         out.push(n.to_json());
     }
+    if sc.warmup_depths.len() > 1 {
+        for i in 0..sc.warmup_depths.len() {
+            let mut n = sc.clone();
+            n.warmup_depths.remove(i);
+            out.push(n.to_json());
+        }
+    }
+    if sc.warmup_timed {
+        let mut n = sc.clone();
+        n.warmup_timed = false;
+        out.push(n.to_json());
+    }
     if !sc.stalls.is_empty() {
         let mut n = sc.clone();
         n.stalls.clear();
@@ -337,6 +357,28 @@ fn explosive(bench: &mut Bench, fen: &str, cap: u64) -> bool {
     matches!(r.outcome, Outcome::Aborted(Abort::NodeCap))
 }
 
+/// One or two earlier searches on the same engine, large enough (depth 3-4) to leave more
+/// nodes on its counters than the bound B.
+fn warmups(rng: &mut Rng, pos: &Pos, s: &mut Scenario) {
+    let maxd = if pos.piece_count() <= 12 { 4 } else { 3 };
+    let n = rng.range(1, 2);
+    s.warmup_depths = (0..n).map(|_| rng.range(2, maxd) as u8).collect();
+    s.warmup_timed = rng.chance(1, 2);
+}
+
+/// Read index (within the search) of each completed iteration of an uninterrupted
+/// clock-limited search, up to `cap` nodes.
+fn iteration_marks(bench: &mut Bench, fen: &str, key_seed: u64, cap: u64) -> Vec<u64> {
+    let mut st = SimState::new(key_seed, 0);
+    st.max_nodes_per_search = cap;
+    let sess = Session::new(st);
+    sess.fresh(&mut bench.searcher, false);
+    let board = Board::new(fen);
+    let r = sess.search(&mut bench.searcher, &board, 64, Some(HUGE_LIMIT));
+    let rec = r.rec.or_else(|| sess.st().searches.last().cloned());
+    rec.map(|r| r.info_marks.iter().map(|m| m.0).collect()).unwrap_or_default()
+}
+
 pub fn run(ctx: &Ctx) -> i32 {
     let sims = ctx.n(240, 2400);
     let per_pos: u64 = match ctx.tier {
@@ -351,7 +393,18 @@ pub fn run(ctx: &Ctx) -> i32 {
         with_bench(|bench| {
             // position: one third explosive (constructed or generated), the rest ordinary
             let want_explosive = i % 3 == 0;
-            let (pos, is_explosive): (Pos, bool) = if want_explosive {
+            let mut single_reply = false;
+            let (pos, is_explosive): (Pos, bool) = if i % 6 == 1 {
+                // the side to move has a single legal move: every iteration's "last root move"
+                // is its only one
+                match gen::single_reply_position(&mut rng) {
+                    Some(p) => {
+                        single_reply = true;
+                        (p, false)
+                    }
+                    None => (sample_position(&mut rng), false),
+                }
+            } else if want_explosive {
                 let mut found = None;
                 for _ in 0..40 {
                     let p = if rng.chance(1, 3) {
@@ -375,6 +428,9 @@ pub fn run(ctx: &Ctx) -> i32 {
             if is_explosive {
                 res.probes.add("explosive_positions", 1);
             }
+            if single_reply {
+                res.probes.add("single_reply_positions", 1);
+            }
             let key_seed = rng.next_u64();
             let mut scs: Vec<Scenario> = vec![];
             let base = Scenario {
@@ -388,6 +444,7 @@ pub fn run(ctx: &Ctx) -> i32 {
                 stalls: vec![],
                 via_uci: false,
                 warmup_depths: vec![],
+                warmup_timed: false,
             };
             // (a) forced expiry: dense over the first reads, then log-uniform up to 20 000
             let dense = per_pos / 3;
@@ -404,10 +461,31 @@ pub fn run(ctx: &Ctx) -> i32 {
                 if rng.chance(1, 6) {
                     s.via_uci = true;
                 }
-                if rng.chance(1, 8) && !is_explosive {
-                    s.warmup_depths = vec![rng.range(1, 2) as u8];
+                if rng.chance(1, 4) && !is_explosive {
+                    warmups(&mut rng, &pos, &mut s);
                 }
                 scs.push(s);
+            }
+            // (a') expiry shortly before the end of an iteration (the last root moves' subtrees):
+            // read index of each `info` line of an uninterrupted probe, minus a log-uniform offset
+            if !is_explosive {
+                let marks = iteration_marks(bench, &fen, key_seed, 60_000);
+                let mut prev = 0u64;
+                for (k, m) in marks.iter().enumerate() {
+                    let span = m.saturating_sub(prev).max(2);
+                    for _ in 0..(per_pos / 12).max(2) {
+                        let off = rng.log_range(1, span / 2 + 1);
+                        let mut s = base.clone();
+                        s.forced = Some(m.saturating_sub(off).max(1));
+                        s.depth = if rng.chance(1, 2) { 64 } else { (k as u8 + 1).max(1) };
+                        if rng.chance(1, 6) {
+                            s.via_uci = true;
+                        }
+                        scs.push(s);
+                        res.probes.add("expiry_points_late_in_an_iteration", 1);
+                    }
+                    prev = *m;
+                }
             }
             // (b) cost model: the deadline falls at a node, not at a poll; with and without stalls
             for _ in 0..per_pos / 3 {
@@ -423,6 +501,9 @@ pub fn run(ctx: &Ctx) -> i32 {
                 }
                 if rng.chance(1, 6) {
                     s.via_uci = true;
+                }
+                if rng.chance(1, 5) && !is_explosive {
+                    warmups(&mut rng, &pos, &mut s);
                 }
                 scs.push(s);
             }
@@ -442,6 +523,9 @@ pub fn run(ctx: &Ctx) -> i32 {
                 res.probes.max("max_overshoot_nodes", o.overshoot);
                 if sc.via_uci {
                     res.probes.add("via_uci_runs", 1);
+                }
+                if !sc.warmup_depths.is_empty() {
+                    res.probes.add("runs_after_earlier_searches_on_the_same_engine", 1);
                 }
                 if o.faults.get("deadline_expired_mid_search") > 0 {
                     res.distinct.push(hash_str(&sc.to_json().to_string()));
@@ -468,7 +552,7 @@ pub fn run(ctx: &Ctx) -> i32 {
     });
     let ev = Evidence {
         level: "fault_enumeration",
-        rule: format!("Positions: one third explosive (constructed promotion races and seeded ones, kept when a depth-1 search exceeds {} nodes), the rest seeded playout positions. Per position: forced expiry at every read 1..N/3, log-uniform expiry reads up to 20 000, and cost-model runs (per-node cost 1us..5ms, budget 1..30 000 nodes, optional stall jump) in which the deadline passes at a node rather than at a poll; depths 1, 2, 3 and 64; one sixth through `go movetime` and the real uci_loop. Oracle: at most {} nodes entered after the virtual clock first shows start+limit (runs are cut at {} by the step cap), plus a time bound in stall-free runs. A case = a scenario in which the deadline passed before the search ended.", 20 * B, B, 64 * B),
+        rule: format!("Positions: one third explosive (constructed promotion races and seeded ones, kept when a depth-1 search exceeds {} nodes), one sixth middlegame positions with a single legal move, the rest seeded playout positions. Per position: forced expiry at every read 1..N/3, log-uniform expiry reads up to 20 000, expiry reads shortly before the end of each iteration of an uninterrupted probe (the last root moves' subtrees), and cost-model runs (per-node cost 1us..5ms, budget 1..30 000 nodes, optional stall jump) in which the deadline passes at a node rather than at a poll; depths 1, 2, 3 and 64; one sixth through `go movetime` and the real uci_loop; a quarter of the sampled runs after one or two earlier depth 2-4 searches (clock-limited or not) on the same engine. Oracle: at most {} nodes entered after the virtual clock first shows start+limit (runs are cut at {} by the step cap), plus a time bound in stall-free runs. A case = a scenario in which the deadline passed before the search ended.", 20 * B, B, 64 * B),
         extra: {
             let mut m = serde_json::Map::new();
             m.insert("bound_B_nodes".into(), json!(B));
